@@ -16,8 +16,10 @@ import (
 	"net"
 	"net/netip"
 	"net/url"
+	"runtime"
 	"sort"
 	"strings"
+	"sync/atomic"
 	"testing"
 	"time"
 
@@ -35,7 +37,10 @@ var (
 	evil = []string{"evil.zz", "bad.evil.zz"}
 )
 
-const evilECH = "EVIL:"
+const (
+	evilECH    = "EVIL:"
+	maxQueries = 64 // Q2
+)
 
 // genuine addresses: 10.1/16, fd00:1::/32; hints: 10.9/16, fd00:9::/32; attacker: 203.0.113/24, 2001:db8:bad::/48
 func goodAddr(rng *mrand.Rand, v6 bool) netip.Addr {
@@ -558,6 +563,18 @@ func TestCheck(t *testing.T) {
 		"address order inside an RRSet is not judged; ties in priority may come in any order",
 		"port 0 is treated as 'no port given'; an rcode other than NXDOMAIN on an HTTPS lookup may be reported as an error or ignored, errors on lookups of service targets may be ignored")
 
+	// One listener per worker for the whole run (a listener per case exhausts the loopback port space).
+	workers := runtime.GOMAXPROCS(0)
+	servers := make(chan *dohfake.Server, workers)
+	for w := 0; w < workers; w++ {
+		srv := dohfake.NewServer(dohfake.NewZone())
+		defer srv.Close()
+		if !strings.HasPrefix(srv.URL, "http://127.0.0.1:") {
+			r.Inconclusive("fixture: no listener on 127.0.0.1 (%s)", srv.URL)
+			return
+		}
+		servers <- srv
+	}
 	n := r.N(3000, 150000)
 	r.Parallel("resolve", n, func(i int, rng *mrand.Rand) {
 		in := genInput(rng, i)
@@ -566,8 +583,9 @@ func TestCheck(t *testing.T) {
 		if i < 2 || i == len(specials) {
 			r.Sample(c)
 		}
-		srv := dohfake.NewServer(z)
-		defer srv.Close()
+		srv := <-servers // exclusive use for this case
+		defer func() { servers <- srv }()
+		srv.Reset(z)
 		resolver, err := ech.NewResolver(srv.URL)
 		if err != nil {
 			r.Inconclusive("fixture: NewResolver(%q): %v", srv.URL, err)
@@ -576,6 +594,14 @@ func TestCheck(t *testing.T) {
 		resolver.SetCacheSize(0)
 		ctx, cancel := context.WithTimeout(context.Background(), 2*time.Minute) // watchdog only
 		defer cancel()
+		// Q2 is a count, not a deadline: the 65th query cancels the call so that an unbounded chase ends.
+		var overrun atomic.Bool
+		srv.OnQuery(func(q dohfake.Query) {
+			if q.Seq > maxQueries {
+				overrun.Store(true)
+				cancel()
+			}
+		})
 		var res ech.ResolveResult
 		rule := "resolve"
 		if in.Class != "normal" {
@@ -593,6 +619,11 @@ func TestCheck(t *testing.T) {
 			c["error"] = err.Error()
 		} else {
 			c["result"] = fmt.Sprintf("%+v", res)
+		}
+		if overrun.Load() {
+			r.Eval("overrun|" + in.Class)
+			r.Violate("resolve", i, "Q2:too-many-queries", fmt.Sprintf("Resolve(%s) sent more than %d queries (cancelled at #%d); last names asked: %s", mon.Clip(in.Arg, 60), maxQueries, len(qlog), lastNames(qlog)), c)
+			return
 		}
 		if ctx.Err() != nil {
 			r.Inconclusive("watchdog: Resolve(%q) did not return within 2 minutes", mon.Clip(in.Arg, 80))
@@ -625,7 +656,7 @@ func TestCheck(t *testing.T) {
 		c["expected_chain"] = exp
 
 		// Q2: bounded number of queries
-		if len(qlog) > 64 {
+		if len(qlog) > maxQueries {
 			viol("Q2:too-many-queries", "%d queries for one Resolve", len(qlog))
 		}
 
@@ -659,15 +690,22 @@ func TestCheck(t *testing.T) {
 			}
 			if !q.Legal || !q.Parsed {
 				malformed = true
-				what := "host"
-				if strings.HasPrefix(q.Name, "_") {
-					what = "svcb"
+				// signature = which name is illegal (the origin itself, or only its RFC 9460 prefixed form) and why
+				what, bad := "svcb", in.Svcb
+				if in.Class == "host-illegal" {
+					what, bad = "host", in.Host
+				} else if in.Class == "normal" {
+					what, bad = "other", q.Name
 				}
-				why := "total>255"
-				for _, l := range q.Labels {
-					if len(l) > 63 {
-						why = "label>63"
-					}
+				why := "len>255" // text length; 254..255 is the window a "len(name) > 255" test lets through
+				if len(bad) <= 255 {
+					why = "len254-255"
+				}
+				if longest(strings.Split(bad, ".")) > 63 {
+					why = "label>63"
+				}
+				if len(q.Labels) == 0 {
+					why = "empty"
 				}
 				viol("Q1:malformed-qname:"+what+":"+why, "query #%d carries an illegal QNAME (labels %d, longest %d, parsed=%v) for Resolve(%s)", q.Seq, len(q.Labels), longest(q.Labels), q.Parsed, mon.Clip(in.Arg, 60))
 				continue
@@ -701,6 +739,9 @@ func TestCheck(t *testing.T) {
 		r.Count("poisoned_answers_served", int64(poisonedServed))
 		if exp.Loop {
 			r.Count("loops_generated", 1)
+		}
+		if len(cnameChain(z, in.Host)) > 1 || len(cnameChain(z, start)) > 1 {
+			r.Count("cname_cases", 1) // the answer used was reached through an in-answer CNAME chain
 		}
 		rcs := ""
 		for _, q := range served {
@@ -765,7 +806,7 @@ func TestCheck(t *testing.T) {
 			case onlyNXHTTPS:
 				viol("Q5:nxdomain-on-https-is-failure", "Resolve(%s) failed with %q; the only non-zero rcode was NXDOMAIN on HTTPS lookups", mon.Clip(in.Arg, 60), err)
 			default:
-				viol("Q5:wrong-error:"+rcs, "Resolve(%s) failed with %q which is not the documented error of any rcode served (qtype/rcode: %s)", mon.Clip(in.Arg, 60), err, rcs)
+				viol("Q5:wrong-error:rcode"+distinctRcodes(served), "Resolve(%s) failed with %q which is not the documented error of any rcode served (qtype/rcode: %s)", mon.Clip(in.Arg, 60), err, rcs)
 			}
 			return
 		}
@@ -865,11 +906,37 @@ func TestCheck(t *testing.T) {
 	r.Floor("queries", int64(n)*2)
 	r.Floor("alias_hops_followed", int64(n)/10)
 	r.Floor("loops_generated", int64(n)/100)
+	r.Floor("cname_cases", int64(n)/30)
 	r.Floor("poisoned_answers_served", int64(n)/20)
 	r.Floor("error_rcode_cases", int64(n)/20)
 	r.Floor("overlong_inputs", int64(len(specials)))
 	r.Floor("strict_equality_checks", int64(n)/20)
 	r.Floor("results_with_https", int64(n)/20)
+}
+
+// distinctRcodes: sorted distinct rcodes served, NXDOMAIN on HTTPS lookups left out.
+func distinctRcodes(q []dohfake.Query) string {
+	var seen [16]bool
+	for _, e := range q {
+		if e.Rcode > 0 && e.Rcode < 16 && !(e.Type == dohfake.TypeHTTPS && e.Rcode == dohfake.NXDomain) {
+			seen[e.Rcode] = true
+		}
+	}
+	s := ""
+	for rc, ok := range seen {
+		if ok {
+			s += fmt.Sprintf("+%d", rc)
+		}
+	}
+	return strings.TrimPrefix(s, "+")
+}
+
+func lastNames(q []dohfake.Query) string {
+	var s []string
+	for _, e := range q[max(0, len(q)-6):] {
+		s = append(s, fmt.Sprintf("%s/%d", mon.Clip(e.Name, 40), e.Type))
+	}
+	return strings.Join(s, " ")
 }
 
 func longest(labels []string) int {
